@@ -28,7 +28,13 @@ def inner():
     from . import canon as C
     from . import child
     for name in spec["server"].get("import_order") or []:
-        importlib.import_module("py_ecc." + name)
+        try:
+            importlib.import_module("py_ecc." + name)
+        except BaseException as e:  # noqa: B036 - reported as an outcome of this variant
+            sys.stdout.write("\nCOLD-RESULT " + json.dumps(
+                {"import_failed": name, "exc": C._typename(type(e)), "msg": str(e)[:200]}) + "\n")
+            sys.stdout.flush()
+            return 0
     base = {"full": C.snapshot(data_only=False), "data": C.snapshot(data_only=True)}
     sim = child.Sim(spec, base)
     res = sim.run()
@@ -95,6 +101,26 @@ def compare_public(server, res):
     return viol
 
 
+def import_failure(m, res, t0):
+    """the pristine server imported every sub-package (default order); a fresh
+    interpreter with this import order / flags cannot: process-lifetime dependence"""
+    v = {"invariant": "H9", "kind": "process-lifetime", "task": None, "op": None,
+         "function": None,
+         "detail": {"key": "import:py_ecc.%s" % res["import_failed"], "exc": res.get("exc"),
+                    "msg": res.get("msg"),
+                    "what": "importing the sub-package fails in a freshly started interpreter "
+                            "with this import order / flags, but succeeds in the default order"}}
+    return {"model_s": 0.0, "sim_s": time.monotonic() - t0, "spec": m, "violations": [v],
+            "counters": {}, "probes": {},
+            "stats": {"switches": 0, "faults_fired": {}, "events": 0, "ops": 0, "i1_checks": 0,
+                      "i1_midop_checks": 0, "evictions": 0, "gc_collects": 0,
+                      "stack_faults_fired": 0, "ops_suspended": 0, "lock_blocks": 0},
+            "records_digest": "import-failed",
+            "coverage": {"nontrivial": [], "pairs": [], "sites": [], "fault_sites": [],
+                         "interleaving": None},
+            "res": {"records": []}}
+
+
 def execute_cold(server, spec):
     """two passes: pass 1 fault-free gives per-operation step counts (import
     operations cost millions of steps only in a cold interpreter), pass 2
@@ -111,6 +137,8 @@ def execute_cold(server, spec):
         probe["schedule"] = {"first": 0, "switches": [], "at_op_boundaries": []}
         pm = server.model_pass(probe)
         pres = run_cold_process(pm)
+        if "import_failed" in pres:
+            return import_failure(pm, pres, t0)
         if "records" not in pres:
             return {"harness_error": "cold probe: %s" % json.dumps(pres)[:1500], "spec": pm,
                     "model_s": 0, "sim_s": time.monotonic() - t0}
@@ -120,6 +148,8 @@ def execute_cold(server, spec):
     res = run_cold_process(m)
     t2 = time.monotonic()
     out = {"model_s": t1 - t0, "sim_s": t2 - t1, "spec": m}
+    if "import_failed" in res:
+        return import_failure(m, res, t0)
     if "records" not in res:
         out["harness_error"] = "cold run: %s" % json.dumps(res)[:1500]
         return out
